@@ -263,7 +263,21 @@ EXTRA = {
            "state also breaks the tree invariant (such states are not expanded).",
     "C06": " Plus a layer 'merges of whole trees': every (destination, source) pair of the C13 generator (73 588 in the quick "
            "tier) is merged and, where the merge raises, the destination must be unchanged.",
-    "C10": " Added later: the long-text, id-form and name-coincidence layers of C01.",
+    "C07": " Added later: failure causes that lie in the environment of the call - warnings turned into errors, an ASCII locale "
+           "with non-ASCII text.",
+    "C08": " Added later: sibling Sections / Properties whose (name, type) pairs differ but look alike when joined or rendered "
+           "(separator shifted between name and type, None vs 'None' vs '', case, blanks, composed vs decomposed letters), "
+           "look-alike dependency names, ids differing in case only.",
+    "C09": " Added later: layer 'multi' - 13 document shapes with 1-3 objects under test incl. content-equal twins, every count "
+           "vector, validated as a whole, per sub-tree and per object, judged per object by identity; boolean and "
+           "empty-element settings.",
+    "C10": " Added later: the long-text, id-form and name-coincidence layers of C01; layer W - one writer object across export, "
+           "edit (61 entity edits, 10 edits of writer.docs, 9 two-edit sequences), export again, 11 / 144 call pairs.",
+    "C11": " Added later: documents 'dtypes' (18 dtype families and spellings) and 'links' (resolved links that took over "
+           "attributes); edits of (inner) lists handed out by copies; a two-sided layer - every [copy x, original y] and "
+           "[original y, copy x] over the link alphabet, each side compared with a twin that saw only its own edits.",
+    "C12": " Added later: targets holding values for which equality is not reflexive or crosses types (NaN, inf, -0.0, 1 / 1.0 / "
+           "True / '1', huge ints, empty Properties) and content-equal twins.",
     "C13": " Plus a layer of merge sequences: destinations that carry state from an earlier merge (another source, the same "
            "source again, a clone of it, merges one and two levels further down, strict after non-strict, refused after "
            "successful and vice versa, first-second-first), each step judged by the reference applied to the state before it.",
